@@ -448,7 +448,7 @@ pub fn exec(plan: &ConcPlan) -> RunOut {
             let all = desc(&done);
             let why = if tried == 0 { "no ordering reproduces the responses".to_string() } else { format!("orderings reproduce the responses but not the final state ({})", state_mismatch.clone().unwrap_or_default()) };
             if let Some((c, p)) = double {
-                out.violations.push(viol(&["C03", "C01"], "conc.double_accept", format!("two overlapping AddVersion requests of client {c} were both accepted on parent {p}; {why}; batch: {}", desc(&live))));
+                out.violations.push(viol(&["C03", "C01", "C07"], "conc.double_accept", format!("two overlapping AddVersion requests of client {c} were both accepted on parent {p}; {why}; batch: {}", desc(&live))));
             } else {
                 let props: &[&str] = if live.iter().any(|d| matches!(d.req, Req::AddSnapshot { .. } | Req::GetSnapshot { .. })) { &["C03", "C11"] } else { &["C03"] };
                 out.violations.push(viol(props, "conc.not_linearizable", format!("{why}; batch: {}; all requests incl. those failed behind an injected stall: {}", desc(&live), all)));
